@@ -129,10 +129,11 @@ PASSTHROUGH = re.compile(
 class Derive:
     """Backward derivation of an operand to parameters / fields, classifying the route."""
 
-    def __init__(self, fn, passthrough=PASSTHROUGH):
+    def __init__(self, fn, passthrough=PASSTHROUGH, stop=None):
         self.fn = fn
         self.du = mirg.DefUse(fn)
         self.passthrough = passthrough
+        self.stop = stop   # regex: calls producing a fresh value; their arguments are not followed
 
     def roots(self, op, max_depth=20):
         """returns list of (kind, what, direct) where kind in {'param','field','const','call'}
@@ -178,6 +179,8 @@ class Derive:
                     c = ncallee(t) or ""
                     pt = bool(self.passthrough.search(c))
                     out.append(("call", c, direct))
+                    if self.stop is not None and self.stop.search(c):
+                        continue
                     for a in t["a"]:
                         if a[0] in ("c", "m"):
                             visit_place(a[1], direct and pt, depth + 1)
